@@ -26,7 +26,7 @@
 EXTENDS CdefOol
 
 VARIABLES cw,        \* the C world
-          flex,      \* items made flexible in the cdef: <<"su", key>>, <<"k", name>>
+          flex,      \* items made flexible in the cdef: <<"su", key>>, <<"k", name>>, <<"gv", name>> (array length [...])
           phase      \* "decl" | "mut" (after the first mutation no more declarations)
 avars == <<cenv, hist, variant, cw, flex, phase>>
 
@@ -78,6 +78,8 @@ AddDotsG(ev, fl, item) ==
         \* cparser.py refuses a partial struct inside a nested anonymous one ("partial but has no C name")
         /\ \A k2 \in DOMAIN ev.su : ~Queryable(k2) => item[2] \notin NeedsClosure(ev.su, FieldNeeds(ev.su, k2))
      \/ item[1] = "k" /\ item[2] \in DOMAIN ev.kc
+     \* "extern T g[...];": the length of a global array is taken from the C source
+     \/ item[1] = "gv" /\ item[2] \in DOMAIN ev.gv /\ ev.gv[item[2]][1] = "arr" /\ ev.gv[item[2]][3] # Open
 
 (* ------------------------------------------------------------------ layouts in both worlds *)
 \* byte offset of field i: for a bit-field, of its 4-byte unit
@@ -176,25 +178,24 @@ IdealEnLen(ev, c, tag, i) ==
   ELSE IF SmallLen(c.en[tag].vals[i]) THEN <<"ok", c.en[tag].vals[i]>> ELSE <<"any">>
 (* the implementation: the generated getter returns bit 0 = "value <= 0", bit 1 = "the cdef
    disagrees" (only where a check_value was generated), and parse_sequel accepts
-   neg == 0 || value == 0, refuses neg == 1 ("expected a positive integer constant") and
-   otherwise reports the disagreement.  So a disagreeing constant whose C value is 0 is accepted
-   as length 0.  Variant "lenmaskbit" tests only bit 0 (!(neg & 1)): every positive disagreeing
-   value is accepted. *)
+   neg == 0 || (neg == 1 && value == 0), refuses the other neg == 1 ("expected a positive integer
+   constant") and otherwise reports the disagreement.
+   Variant "lenzero" is the code before /repo 8c4f132 (neg == 0 || value == 0: a disagreeing constant
+   whose C value is 0 was accepted as length 0); variant "lenmaskbit" tests only bit 0 (!(neg & 1)):
+   every positive disagreeing value is accepted. *)
 ModelLenOf(cv, mism) ==
-  IF cv = "0" THEN <<"ok", "0">>
+  IF cv = "0" THEN (IF mism /\ variant # "lenzero" THEN <<"error">> ELSE <<"ok", "0">>)
   ELSE IF ~IsNeg(cv) /\ (~mism \/ variant = "lenmaskbit") THEN (IF SmallLen(cv) THEN <<"ok", cv>> ELSE <<"any">>)
   ELSE <<"error">>
 ModelLen(ev, c, fl, name) == ModelLenOf(c.kc[name], ModelConst(ev, c, fl, name) = "error")
 ModelEnLen(ev, c, tag, i) == ModelLenOf(c.en[tag].vals[i], FALSE)          \* enumerators carry no check
-LenZeroClass(ev, c, fl, name) == IdealConst(ev, c, fl, name) = "error" /\ c.kc[name] = "0"
 
 ApiBad(ev, c, fl, strict) ==
   {<<"su", KeyStr(key)>> : key \in {key \in DOMAIN ev.su :
         IdealSU(ev, c, fl, key) # "any" /\ ModelSU(ev, c, fl, key) # IdealSU(ev, c, fl, key)}}
   \cup {<<"k", n>> : n \in {n \in DOMAIN ev.kc : ModelConst(ev, c, fl, n) # IdealConst(ev, c, fl, n)}}
   \cup {<<"len", n>> : n \in {n \in DOMAIN ev.kc : /\ IdealLen(ev, c, fl, n) # <<"any">> /\ ModelLen(ev, c, fl, n) # <<"any">>
-                                                    /\ ModelLen(ev, c, fl, n) # IdealLen(ev, c, fl, n)
-                                                    /\ (strict \/ ~LenZeroClass(ev, c, fl, n))}}
+                                                    /\ ModelLen(ev, c, fl, n) # IdealLen(ev, c, fl, n)}}
   \cup (IF strict THEN UNION {{<<"en", ev.en[g].names[i]>> : i \in {i \in DOMAIN ev.en[g].vals :
                                    ModelEnumerator(ev, c, g, i) # IdealEnumerator(ev, c, g, i)}} : g \in DOMAIN ev.en}
         ELSE {})
@@ -239,6 +240,7 @@ ANext ==
   \/ \E g \in DOMAIN cenv.en, i \in 1..2, v \in {"8", "-8"} : MutateEnumerator(g, i, v)
   \/ \E key \in DOMAIN cenv.su : AddDots(<<"su", key>>)
   \/ \E n \in DOMAIN cenv.kc : AddDots(<<"k", n>>)
+  \/ \E g \in DOMAIN cenv.gv : AddDots(<<"gv", g>>)
 ASpec == AInit /\ [][ANext]_avars
 
 ApiRefines ==
